@@ -191,6 +191,7 @@ type World struct {
 	onConn func(engine.Socket)
 	// OnHook, if set, sees every hook arrival routed to this world.
 	OnHook func(point string, args []any)
+	cands  []*Client
 }
 
 type lockedWriter struct {
